@@ -204,3 +204,76 @@ Proof.
 Qed.
 
 End Rows.
+
+(* ---------- entries of a canonical minishard index ---------- *)
+Section Entries.
+Variable sp : sparams.
+Variable enc : bytes -> bytes.
+Variable K : N.
+Notation mb := (K * 2 ^ sp_p sp).
+Hypothesis HK : K < 2 ^ (sp_s sp + sp_m sp).
+Hypothesis HB : cbits sp < 2 ^ 64.
+
+Definition cstart (sm : store_map) (off : N) (i : nat) : N := off + lenN (cdata sp enc sm mb i).
+
+Definition centries (sm : store_map) (off : N) (n : nat) : list (N * (N * N)) :=
+  map (fun i => (idn sp K i, (cstart sm off i, cstart sm off (S i)))) (seq 0 n).
+
+Lemma cstart_S : forall sm off i, cstart sm off (S i) = cstart sm off i + lenN (cpay sp enc sm mb i).
+Proof. intros. unfold cstart. rewrite (cdata_S sp enc K), lenN_app. lia. Qed.
+
+Lemma entries_gen : forall sm off k j,
+  index_entries (map (cdelta sp mb) (seq j k))
+                (map (fun i => if (i =? 0)%nat then off else 0) (seq j k))
+                (map (fun i => lenN (cpay sp enc sm mb i)) (seq j k))
+                (match j with O => 0 | S j' => idn sp K j' end)
+                (match j with O => 0 | S _ => cstart sm off j end)
+  = map (fun i => (idn sp K i, (cstart sm off i, cstart sm off (S i)))) (seq j k).
+Proof.
+  intros sm off k. induction k as [|k IH]; intro j; [reflexivity|].
+  cbn [seq map index_entries].
+  assert (Eid : (match j with O => 0 | S j' => idn sp K j' end) + cdelta sp mb j = idn sp K j).
+  { destruct j as [|j']; unfold cdelta.
+    - unfold idn. reflexivity.
+    - fold (idn sp K j'). fold (idn sp K (S j')).
+      pose proof (idn_mono sp K HK HB j' (S j') ltac:(lia)). lia. }
+  assert (Est : (match j with O => 0 | S _ => cstart sm off j end) + (if (j =? 0)%nat then off else 0)
+                = cstart sm off j).
+  { destruct j as [|j']; cbn [Nat.eqb].
+    - unfold cstart, cdata, lenN. cbn [seq flat_map length N.of_nat]. lia.
+    - lia. }
+  rewrite Eid, Est. rewrite <- cstart_S. f_equal.
+  specialize (IH (S j)). cbn [Nat.eqb] in IH. exact IH.
+Qed.
+
+Lemma entries_canon : forall sm off n,
+  index_entries (crow0 sp mb n) (crow1 off n) (crow2 sp enc sm mb n) 0 0 = centries sm off n.
+Proof. intros. unfold crow0, crow1, crow2, centries. apply (entries_gen sm off n 0%nat). Qed.
+
+Lemma alookup_centries : forall sm off n i, (i < n)%nat ->
+  alookup (idn sp K i) (centries sm off n) = Some (cstart sm off i, cstart sm off (S i)).
+Proof.
+  intros sm off n i Hi. unfold centries.
+  assert (G : forall k s, (s <= i < s + k)%nat ->
+     alookup (idn sp K i) (map (fun j => (idn sp K j, (cstart sm off j, cstart sm off (S j)))) (seq s k))
+     = Some (cstart sm off i, cstart sm off (S i))).
+  { induction k as [|k IH]; intros s Hs; [lia|]. cbn [seq map alookup].
+    destruct (N.eqb_spec (idn sp K s) (idn sp K i)) as [E|E].
+    - apply (idn_inj sp K HK HB) in E. subst s. reflexivity.
+    - apply IH. destruct (Nat.eq_dec s i) as [->|]; [congruence | lia]. }
+  apply G. lia.
+Qed.
+
+Lemma alookup_centries_none : forall sm off n id,
+  (forall i, (i < n)%nat -> idn sp K i <> id) -> alookup id (centries sm off n) = None.
+Proof.
+  intros sm off n id H. unfold centries.
+  assert (G : forall k s, (s + k <= n)%nat ->
+     alookup id (map (fun j => (idn sp K j, (cstart sm off j, cstart sm off (S j)))) (seq s k)) = None).
+  { induction k as [|k IH]; intros s Hs; [reflexivity|]. cbn [seq map alookup].
+    destruct (N.eqb_spec (idn sp K s) id) as [E|E]; [exfalso; apply (H s); [lia | exact E]|].
+    apply IH. lia. }
+  apply G. lia.
+Qed.
+
+End Entries.
